@@ -219,31 +219,39 @@ def RamseyWitnessFormula(G, k, s, symbreak=True, formula_class=CNF):
         G.name, k, s)
     F.header['description'] = description
     maybeclique = F.new_variable('C')
-
     N = G.order()
-    s = F.new_mapping(k, N, label='s_{{{},{}}}')
-    F.force_complete_mapping(s)
-    F.force_functional_mapping(s)
-    F.force_injective_mapping(s)
+    t = max(k, s)
+    m = F.new_mapping(t, N, label='s_{{{},{}}}')
+    # The first k elements are mapped when looking for a clique (C is
+    # true), the first s elements when looking for an independent set
+    for i in m.domain():
+        clause = list(m(i, None))
+        if i > s:
+            clause.append(-maybeclique)
+        if i > k:
+            clause.append(maybeclique)
+        F.add_clause(clause)
+    F.force_functional_mapping(m)
+    F.force_injective_mapping(m)
 
     # Local consistency
-    localmaps = product(combinations(range(1,k+1), 2),
+    localmaps = product(combinations(range(1,t+1), 2),
                         combinations(range(1,N+1), 2))
 
     for (i1, i2), (j1, j2) in localmaps:
-
         # check if this mapping is compatible
         edge = G.has_edge(j1, j2)
+        # constraints for the k-clique (when not an edge) and for
+        # the s-independent set (when an edge)
+        relevant = (i2 <= s) if edge else (i2 <= k)
+        selector = maybeclique if edge else -maybeclique
         # increasing map
-        if not edge:
-            F.add_clause([-maybeclique, -s(i1, j1), -s(i2, j2)])
-        else:
-            F.add_clause([maybeclique, -s(i1, j1), -s(i2, j2)])
+        if relevant:
+            F.add_clause([selector, -m(i1, j1), -m(i2, j2)])
         # decreasing map
         if symbreak:
-            F.add_clause([-s(i1, j2), -s(i2, j1)])
-        elif not edge:
-            F.add_clause([-maybeclique, -s(i1, j2), -s(i2, j1)])
-        else:
-            F.add_clause([maybeclique, -s(i1, j2), -s(i2, j1)])
+            F.add_clause([-m(i1, j2), -m(i2, j1)])
+        elif relevant:
+            F.add_clause([selector, -m(i1, j2), -m(i2, j1)])
+
     return F
